@@ -7,17 +7,17 @@ from __future__ import annotations
 
 import numpy as np
 
-from common import DriverError, ser
+from common import DriverError, ser, unrat
 from envlib import Adapter, Config, diff_json, tree_index
 
 
 class A(Adapter):
     name = "tetris"
     lean = "tetris"
-    serves = {"C01", "C04", "C05", "C07", "C09", "C11", "C12"}
+    serves = {"C01", "C04", "C05", "C07", "C09", "C10", "C11", "C12"}
     terminate_on_invalid = True
     max_steps = 60
-    ops = ("state", "step", "judge", "reset", "table", "bounds")
+    ops = ("state", "step", "judge", "reset", "table", "bounds", "instance", "episode")
     state_fields = ["grid_padded", "grid_padded_old", "tetromino_index", "old_tetromino_rotated", "new_tetromino",
                     "x_position", "y_position", "action_mask", "full_lines", "score", "reward", "is_reset",
                     "step_count"]
@@ -96,6 +96,7 @@ class A(Adapter):
             d = diff_json(m["state"], self.ser_state(env, s), path="state") + diff_json(m["ts"], self.ser_ts(env, ts), path="ts")
             if d:
                 ctx.fail(self.name, "reset_vs_rules", f"reset differs from the model at {d[:4]}", {"config": cfg.cid, "reset_seed": sd})
+        self._episodes(ctx, cfg, env, runner, rng, drv)
         # synthetic fields: rows that are full except for a few cells, from the floor up to the top row
         base = resets[0][0]
         cases = []
@@ -132,3 +133,80 @@ class A(Adapter):
         _judge(ctx, self, cfg, env, cases, drv, ["illegal_ok"], "illegal")
         ctx.count(f"{self.name}.synthetic_transitions", len(cases))
         ctx.count(f"{self.name}.synthetic_line_clears", sum(1 for c in cases if float(c[3].reward) > 0))
+
+    # ---- whole episodes: theorems tetris_episode_return / tetris_cells_accounting
+    def _episodes(self, ctx, cfg, env, runner, rng, drv):
+        """Whole real episodes (mask-respecting play that now and then picks any action, so some end on an illegal move):
+        (1) in NumPy from the raw states: return == sum over the placed pieces of REWARD_LIST[lines flagged full], and
+        filled cells at the end + num_cols * lines == filled cells at the start + 4 * pieces (up to the last legal step);
+        (2) the model's episode runner `play` (op tetris.episode) on the same start state, actions and next-piece draws
+        (plus one surplus action) stops at the same step with the same state, return and lines per piece."""
+        import jax
+        from jumanji.environments.packing.tetris import constants
+
+        R, C = cfg.meta["rows"], cfg.meta["cols"]
+        n_ep = 3 if ctx.quick else 12
+        reqs, recs = [], []
+        for k in range(n_ep):
+            seed = int(rng.integers(1 << 31))
+            s, ts = runner.reset(jax.random.PRNGKey(seed))
+            s0, good, actions, lines, ret, illegal = s, s, [], [], 0.0, False
+            while int(ts.step_type) != 2 and len(actions) < 80:
+                mask = np.asarray(s.action_mask)
+                legal = np.argwhere(mask)
+                if len(legal) == 0 or rng.random() < 0.04:
+                    a = np.array([rng.integers(4), rng.integers(C)], dtype=np.int32)
+                elif k % 3 == 2:
+                    # a player that tries: the legal action with the best (reward, low and compact stack) among all successors
+                    fa = self._acts(env)                                        # the whole action space: one compiled shape
+                    s2s, tss = runner.fan(s, fa)
+                    g = np.asarray(s2s.grid_padded)[:, :R, :C] != 0
+                    top = np.where(g.any(axis=2), np.arange(R)[None, :], R).min(axis=1)        # first occupied row
+                    holes = (np.cumsum(g, axis=1) > 0).sum(axis=(1, 2)) - g.sum(axis=(1, 2))     # empty cells under a filled one
+                    score = np.asarray(tss.reward, dtype=np.float64) * 10 + top * 3 - holes * 2
+                    score[~mask[fa[:, 0], fa[:, 1]]] = -np.inf
+                    a = np.asarray(fa[int(np.argmax(score))], dtype=np.int32)
+                else:
+                    a = legal[int(rng.integers(len(legal)))].astype(np.int32)
+                was_legal = bool(mask[int(a[0]), int(a[1])])
+                s2, ts = runner.step(s, a)
+                if not was_legal and int(ts.step_type) != 2:
+                    ctx.fail(self.name, "episode_end", "an illegal action did not end the episode",
+                             {"env": self.name, "config": cfg.cid, "reset_seed": seed, "actions": actions + [[int(a[0]), int(a[1])]]})
+                ret += float(ts.reward)
+                actions.append([int(a[0]), int(a[1]), int(s2.tetromino_index)])
+                if was_legal:
+                    lines.append(int(np.asarray(s2.full_lines).sum()))
+                    good = s2
+                else:
+                    illegal = True
+                s = s2
+            ctx.evaluations += 1
+            cells = lambda st: int((np.asarray(st.grid_padded)[:R, :C] != 0).sum())
+            case = {"env": self.name, "config": cfg.cid, "reset_seed": seed, "actions": actions, "return": ret, "lines": lines}
+            expected = float(sum(constants.REWARD_LIST[min(n, 4)] for n in lines))
+            if abs(ret - expected) > 1e-3:
+                ctx.fail(self.name, "episode_return", f"return {ret} != sum of REWARD_LIST[lines cleared] = {expected} over the placed pieces (lines {lines})", case)
+            if cells(good) + C * sum(lines) != cells(s0) + 4 * len(lines):
+                ctx.fail(self.name, "episode_cells", f"filled cells {cells(good)} + {C} * {sum(lines)} lines != {cells(s0)} + 4 * {len(lines)} pieces", case)
+            if int(ts.step_type) != 2:
+                continue          # cut off by the cap of this loop: nothing to compare with `play`
+            ctx.nontrivial.add((self.name, "episode", seed, len(lines)))
+            ctx.count(f"{self.name}.episode_" + ("illegal" if illegal else "last"))
+            ctx.count(f"{self.name}.episode_lines", sum(lines))
+            reqs.append({"op": "tetris.episode", "cfg": cfg.cfg, "state": self.ser_state(env, s0), "actions": actions + [[0, 0, 0]]})
+            recs.append((case, good, ret, lines, illegal))
+        for (case, good, ret, lines, illegal), m in zip(recs, drv.batch(reqs)):
+            ctx.evaluations += 1
+            if isinstance(m, DriverError):
+                ctx.disagree(self.name, f"episode op rejects a real episode: {m}", case)
+                continue
+            d = diff_json(m["final"], self.ser_state(env, good), path="final")
+            if d or m["lines"] != lines or m["ending"] != ("illegal" if illegal else "last"):
+                ctx.fail(self.name, "episode_vs_model", f"the model's episode (play) differs: {d[:3]}, lines {m['lines']} vs {lines}, ending {m['ending']}", case)
+            if abs(unrat(m["return"]) - ret) > 1e-3:
+                ctx.fail(self.name, "episode_vs_model", f"the model's episode return {unrat(m['return'])} != {ret}", case)
+            if (m["cells_final"] + C * sum(m["lines"]) != m["cells_initial"] + 4 * len(m["lines"]) or m["start_consistent"] is not True
+                    or abs(sum(unrat(x) for x in m["line_rewards"]) - unrat(m["return"])) > 1e-9):
+                ctx.disagree(self.name, "the proved accounting does not hold inside the model (theorem hypothesis violated?)", case)
+
